@@ -114,6 +114,10 @@ def rand_config(rng, max_size=40, kind_hint=None):
         size2 = int(np.prod([ind_len(l) for l in legs2]))
         if size1 > max_size or size2 > max_size:
             continue
+        transposed_partner = kind_hint is not None and kind_hint % 6 == 3 and r1 >= 2
+        if transposed_partner:
+            labels1 = [[names[i]] for i in range(r1)]
+            labels2 = [list(l) for l in labels1]
         cplx = rng.random() < 0.4
         t1 = rand_tensor(rng, mods, legs1, labels1, cplx)
         t2 = rand_tensor(rng, mods, legs2, labels2, rng.random() < 0.4)
@@ -131,6 +135,11 @@ def rand_config(rng, max_size=40, kind_hint=None):
                 t2['missing'] = [blocks[1]] + [b for b in blocks[2:] if rng.random() < 0.2]
             else:
                 t2['missing'] = []
+        if transposed_partner:
+            perm = list(range(1, r1 + 1))
+            while perm == list(range(1, r1 + 1)):
+                perm = [x + 1 for x in rng.sample(range(r1), r1)]
+            t2['transpose_perm'] = perm
         # a third, small tensor (vector or thin matrix) contractible with a leg of T1: matvec-like products and
         # outer products stay small
         j = rng.randrange(r1)
@@ -177,8 +186,10 @@ def mc_module(name, cfg):
         else:
             f = 'LAMBDA idx : <<1 + ((Flat(idx, %s) * 5) %% 11), 0>>' % shape
         missing = '{' + ', '.join(tlc.tla_lit([b + 1 for b in blk]) for blk in t['missing']) + '}'
-        lines.append('T%d == MkTensorM(<<%s>>, %s, %s, %s, %s)' % (
-            ti + 1, ', '.join(lnames), tlc.tla_lit(t['qtotal']), tlc.tla_lit([list(l) for l in t['labels']]), f, missing))
+        expr = 'MkTensorM(<<%s>>, %s, %s, %s, %s)' % (', '.join(lnames), tlc.tla_lit(t['qtotal']), tlc.tla_lit([list(l) for l in t['labels']]), f, missing)
+        if t.get('transpose_perm'):
+            expr = 'OpTranspose(%s, %s)' % (expr, tlc.tla_lit(t['transpose_perm']))
+        lines.append('T%d == %s' % (ti + 1, expr))
         tnames.append('T%d' % (ti + 1))
     lines.append('MCInit == <<%s>>' % ', '.join(tnames))
     lines.append('====')
@@ -390,6 +401,17 @@ def apply_step(pool, l, chinfo):
         if z == -1:
             return 'store', a - b
         return 'store', a + z * b
+    if op in ('add_by_labels', 'iadd_by_labels'):
+        b = pool[l['b']]
+        z = gauss(l['z'])
+        if op == 'add_by_labels':
+            return 'store', (a + b if z == 1 else a - b if z == -1 else a + z * b)
+        if (isinstance(z, complex) or b.dtype.kind == 'c') and a.dtype.kind != 'c':
+            a2 = a.astype(np.complex128)
+            pool[l['a']] = a2
+            a = a2
+        a.iadd_prefactor_other(z, b)
+        return 'inplace', a
     if op == 'iadd_prefactor_other':
         b = pool[l['b']]
         z = gauss(l['z'])
